@@ -179,6 +179,9 @@ pub fn run(cfg: &Cfg, rep: &mut Rep) {
     let mut i = 0usize;
     let year = 365_259_600_000_000i128 * 86_400 / 1000; // 365.2596 d in ns
     for base_y in [-9000i128, -100, 0, 24, 1000, 9000] {
+        if cfg.fuzz {
+            break;
+        }
         for k in 0..2000i128 {
             i += 1;
             if i % n != sh {
@@ -196,6 +199,9 @@ pub fn run(cfg: &Cfg, rep: &mut Rep) {
     // every nanosecond of the 400 us around the zero of each dynamical reading (the instant where TT-past-J2000 and the
     // ET / TDB reading change sign, 70 us apart): sign handling and the x == -x equality of durations live here
     for dy in dyns {
+        if cfg.fuzz {
+            break;
+        }
         let t0 = w.to_tai(0, dy);
         for x in -200_000i128..=200_000 {
             i += 1;
@@ -211,6 +217,9 @@ pub fn run(cfg: &Cfg, rep: &mut Rep) {
     // binary and decimal thresholds of the dynamical reading itself and of TAI-past-J2000 (neither is a threshold of the
     // count the epoch is held with): +-40 s around each, every second and a few nanoseconds either side
     for dy in dyns {
+        if cfg.fuzz {
+            break;
+        }
         for thr in [1i128 << 63, 1i128 << 62, 1i128 << 64, 1i128 << 53, 1_000_000_000_000_000_000, 10_000_000_000_000_000_000, NPC, 2 * NPC, 3 * NPC, 50 * NPC] {
             for sign in [1i128, -1] {
                 for sec in -40i128..=40 {
@@ -235,6 +244,7 @@ pub fn run(cfg: &Cfg, rep: &mut Rep) {
     let nrand = cfg.budget(3_000_000);
     let lat = gen::reading_lattice(TimeScale::TAI, &w.leap);
     for k in 0..nrand {
+        let k = cfg.k(k, &mut r);
         let t = match r.below(10) {
             0..=3 => j2k + gen::rand_count_within(&mut r, span),
             4..=5 => j2k + r.range_i128(-span, span),
